@@ -21,7 +21,7 @@ enum {
   K_OWN     = 4, // a=item b=object: acquired
 };
 
-#define FE_MAXITEMS 12
+#define FE_MAXITEMS 80
 #define FE_MAXOBJ 3
 
 struct ItemProg {
@@ -210,6 +210,22 @@ inline std::vector<Program> fe_programs() {
     p.items = {item({0}, {}, {1, 2}, true, 0), item({0}, {}, {}, false, 1),
                item({}, {}, {}, false, 1)};
     p.items[0].vabort_times = 9;
+    v.push_back(p);
+  }
+  {
+    // one iteration that pushes MORE than 64 items (the push buffer's fast
+    // path threshold) and then aborts once: nothing of the aborted attempt
+    // may have reached the worklist
+    Program p;
+    p.name  = "big-push";
+    p.ninit = 2;
+    p.items.resize(72);
+    p.items[0] = item({0}, {}, {}, true, 0);
+    p.items[1] = item({0}, {}, {}, false, 0);
+    for (int c = 2; c < 72; ++c) {
+      p.items[0].pre.push_back(c);
+      p.items[c] = item({}, {}, {}, false, 1);
+    }
     v.push_back(p);
   }
   {
